@@ -92,6 +92,11 @@ func c08Rules(up string) []*rconfig.RuleSet {
 	add("no_decode-mixb", "no_decode", "/mix/f/:name", nil, false)
 	add("no_decode-mixc", "no_decode", "/mix/g/:name", []rconfig.ParameterMatcher{{Name: "name", Type: "glob", Value: "zzz*"}}, false)
 	add("on-mixd", "on", "/mix/g/:name", nil, false)
+	// a rule WITHOUT the setting (= off) whose path_params hold for everything, with backtracking, above a less specific rule that
+	// allows encoded slashes: a segment with an encoded slash is no match for the first (docs: the route does not match), the
+	// second answers
+	add("dflt-mixe", "dflt", "/mix/h/:name", []rconfig.ParameterMatcher{{Name: "name", Type: "glob", Value: "*"}}, true)
+	add("on-mixf", "on", "/mix/h/*rest", nil, false)
 	return []*rconfig.RuleSet{rs}
 }
 
@@ -114,7 +119,7 @@ func c08BasePaths() []string {
 			p+"/users/{id}", p+"/files/a|b/c^d", p+"/users/%7Bid%7D", p+"/t/<x>/mid/`y`",
 		)
 	}
-	out = append(out, "/unknown/x", "/", "/mix/f/report", "/mix/f/zzzreport", "/mix/g/report", "/mix/g/zzz.x", "/mix/f/100%2541")
+	out = append(out, "/unknown/x", "/", "/mix/f/report", "/mix/f/zzzreport", "/mix/g/report", "/mix/g/zzz.x", "/mix/f/100%2541", "/mix/h/report", "/mix/h/a.b")
 	return out
 }
 
@@ -346,6 +351,11 @@ func c08JudgeSlash(r *core.Run, tr *trio, ep, base, sp, hex string, nEnc int, ob
 				r.Violation("encoded-slash-wrong-status:"+ep, fmt.Sprintf("%s: %q answered %d, expected the precondition status 400", ep, sp, obs.Status), cs)
 			}
 			r.Count("rejected_as_required", 1)
+		case "mix":
+			if strings.HasPrefix(base, "/mix/h/") {
+				cs.Expected = "accepted by on-mixf (the more specific rule does not allow encoded slashes and allows backtracking)"
+				r.Violation("encoded-slash-rejected-although-a-less-specific-rule-allows-it:"+ep, fmt.Sprintf("%s: %q was rejected (%d, rule %q)", ep, sp, obs.Status, obs.Rule), cs)
+			}
 		case "on", "no_decode":
 			// rules of this family allow encoded slashes: a rejection is only legitimate if the segment with the encoded
 			// slash is matched by no rule of the family (then the default rule answers 400). All our shapes capture the last segment,
